@@ -232,6 +232,20 @@ def drive(tier):
             k2, enc_ = call(blk.serialize) if ww else call(blk.serialize, dict(include_witness=False))
             R.add("wire.ser", {"kind": "block", "obj": js, "withwit": ww},
                   {"k": "ret", "v": b2l(enc_)} if k2 == "ret" else dict(exc_info(enc_), k="exc"))
+        # read-only queries on the block (and on its transactions), then the same block and a fresh equal one again
+        from bitcoin.core import CheckBlock, CheckTransaction
+        call(blk.GetWeight)
+        call(CheckBlock, blk, False, False)
+        call(blk.GetHash)
+        call(blk.calc_merkle_root)
+        for t_ in blk.vtx:
+            call(t_.GetTxid), call(t_.GetHash), call(t_.has_witness), call(t_.is_coinbase), call(CheckTransaction, t_)
+        for b_ in (blk, gen.build_block(d, not (bi & 1)), blk.get_header() if bi % 5 == 0 else blk):
+            if not isinstance(b_, CBlock):
+                continue
+            k2, enc_ = call(b_.serialize)
+            R.add("wire.ser", {"kind": "block", "obj": js, "withwit": True},
+                  {"k": "ret", "v": b2l(enc_)} if k2 == "ret" else dict(exc_info(enc_), k="exc"))
         enc = blk.serialize()
         k, v = call(CBlock.deserialize, enc)
         R.add("wire.deser", {"kind": "block", "buf": b2l(enc), "pad": False, "obj": js}, classify("block", k, v))
